@@ -312,7 +312,8 @@ Definition gst_ok (Q : target -> Prop) (P : notif -> Prop) (st : gstate) : Prop 
 (** one iteration keeps an invariant [Q] of the target and [P] of the feed if
     the one call of gnmiUpdate it may make does *)
 Lemma gen_meta_one_inv (Q : target -> Prop) (P : notif -> Prop) now k v same st :
-  (forall t val t' r,
+  (forall val t' r,
+      let t := fst (fst st) in
       Q t -> v = Some val -> meta_differs t k same = Ok true ->
       gnmi_update1 t now (meta_noti (t_name t) now k val) = (t', r) ->
       Q t' /\ (forall nd, r = Ok (Some nd) -> P nd)) ->
@@ -324,7 +325,7 @@ Proof.
   destruct v as [val|]; [|split; assumption].
   destruct (meta_differs t k same) as [[|]|e|w] eqn:Hd; try (split; assumption).
   destruct (gnmi_update1 t now (meta_noti (t_name t) now k val)) as [t' r] eqn:E.
-  destruct (Hstep t val t' r HQ eq_refl Hd E) as [HQ' Hnd].
+  destruct (Hstep val t' r HQ eq_refl ltac:(first [exact Hd|reflexivity]) E) as [HQ' Hnd].
   destruct r as [[nd|]|e|w]; unfold gst_ok; cbn [fst snd]; auto.
   split; [exact HQ'|]. apply Forall_snoc; auto.
 Qed.
@@ -366,7 +367,7 @@ Proof.
   assert (Hone : forall k v same st, gst_ok (tinv name) (owns name) st ->
                    gst_ok (tinv name) (owns name) (gen_meta_one now k v same st)).
   { intros k v same st Hst. apply gen_meta_one_inv; [|exact Hst].
-    intros t0 val t' r Hq _ _ E. eapply tinv_step; eauto.
+    intros val t' r t0 Hq _ _ E. eapply tinv_step; eauto.
     destruct Hq as [_ Hnm]. rewrite Hnm. apply owns_meta_noti. }
   repeat (apply fold_gst_ok; [intros; apply Hone; assumption|]).
   split; [exact Hinv|constructor].
@@ -907,7 +908,7 @@ Proof.
   assert (Hone : forall k v same st, gst_ok (real_frame t) (fun _ => True) st ->
                    gst_ok (real_frame t) (fun _ => True) (gen_meta_one now k v same st)).
   { intros k v same st Hst. apply gen_meta_one_inv; [|exact Hst].
-    intros t1 val t' r Hq _ _ E. split; [eapply real_frame_step; eauto|auto]. }
+    intros val t' r t1 Hq _ _ E. split; [eapply real_frame_step; eauto|auto]. }
   match goal with |- real_frame t (fst (fst ?x)) =>
     assert (H : gst_ok (real_frame t) (fun _ => True) x) end.
   { repeat (apply fold_gst_ok; [intros; apply Hone; assumption|]).
@@ -1113,6 +1114,74 @@ Definition reset_counters : list string :=
   [md_add_count; md_del_count; md_empty_count; md_leaf_count; md_update_count;
    md_stale_count; md_future_count; md_suppressed_count; md_size].
 
+(** one ResetEntry never disturbs a getter that already shows the reset value,
+    and establishes it for its own name *)
+Lemma assoc_adel_ne {A} k k' (l : list (string * A)) : k <> k' -> assoc k (adel k' l) = assoc k l.
+Proof.
+  intros Hne. induction l as [|[k0 a0] l IH]; cbn; [reflexivity|].
+  destruct (String.eqb_spec k' k0) as [->|Hn]; cbn.
+  - destruct (String.eqb_spec k k0); [contradiction|reflexivity].
+  - now rewrite IH.
+Qed.
+
+Lemma reset_entry_int m k k' :
+  name_in k md_bool_names = false -> name_in k md_int_names = true ->
+  (k' = k \/ md_get_int m k = Some 0) -> md_get_int (md_reset_entry m k') k = Some 0.
+Proof.
+  intros Hb Hi H. unfold md_reset_entry, md_set_bool, md_set_int, md_set_str, md_get_int.
+  rewrite Hi. unfold md_get_int in H. rewrite Hi in H.
+  destruct (name_in k' md_bool_names) eqn:Eb.
+  { destruct H as [->|H]; [congruence|exact H]. }
+  destruct (name_in k' md_int_names) eqn:Ei.
+  { cbn [m_int]. rewrite assoc_aset. destruct (String.eqb_spec k k'); [reflexivity|].
+    destruct H as [->|H]; [contradiction|exact H]. }
+  destruct H as [->|H]; [congruence|].
+  repeat break_match; cbn [m_int]; exact H.
+Qed.
+
+Lemma reset_entry_bool m k k' :
+  name_in k md_bool_names = true ->
+  (k' = k \/ md_get_bool m k = Some false) -> md_get_bool (md_reset_entry m k') k = Some false.
+Proof.
+  intros Hb H. unfold md_reset_entry, md_set_bool, md_set_int, md_set_str, md_get_bool.
+  rewrite Hb. unfold md_get_bool in H. rewrite Hb in H.
+  destruct (name_in k' md_bool_names) eqn:Eb.
+  { cbn [m_bool]. rewrite assoc_aset. destruct (String.eqb_spec k k'); [reflexivity|].
+    destruct H as [->|H]; [contradiction|exact H]. }
+  destruct H as [->|H]; [congruence|].
+  repeat break_match; cbn [m_bool]; exact H.
+Qed.
+
+Lemma reset_entry_addr m k' :
+  (k' = md_connected_addr \/ md_get_str m md_connected_addr = Some ""%string) ->
+  md_get_str (md_reset_entry m k') md_connected_addr = Some ""%string.
+Proof.
+  intros H. unfold md_reset_entry, md_set_bool, md_set_int, md_set_str, md_get_str.
+  assert (Hs : name_in md_connected_addr md_str_names = true) by reflexivity. rewrite Hs.
+  unfold md_get_str in H. rewrite Hs in H.
+  destruct (name_in k' md_bool_names) eqn:Eb.
+  { destruct H as [->|H]; [discriminate|exact H]. }
+  destruct (name_in k' md_int_names) eqn:Ei.
+  { destruct H as [->|H]; [discriminate|]. cbn [m_str]. exact H. }
+  destruct (String.eqb_spec k' md_connected_addr) as [->|Hn].
+  { rewrite Hs. cbn [m_str]. rewrite assoc_aset. now rewrite String.eqb_refl. }
+  destruct H as [->|H]; [contradiction|].
+  destruct (String.eqb_spec k' md_connect_error) as [->|Hn2]; [|exact H].
+  cbn [m_str]. rewrite assoc_adel_ne; [exact H|discriminate].
+Qed.
+
+Lemma fold_reset (Q : metadata -> Prop) (k : string) :
+  (forall m k', (k' = k \/ Q m) -> Q (md_reset_entry m k')) ->
+  forall L m, (In k L \/ Q m) -> Q (fold_left md_reset_entry L m).
+Proof.
+  intros Hstep. induction L as [|k0 L IH]; cbn [fold_left]; intros m H.
+  - destruct H as [[]|H]; exact H.
+  - destruct H as [[->|Hin]|H].
+    + apply IH. right. apply Hstep. now left.
+    + apply IH. now left.
+    + apply IH. right. apply Hstep. now right.
+Qed.
+
 Lemma md_clear_getters m z :
   let m' := md_set_int (md_clear m) md_latest_ts z in
   md_get_bool m' md_sync = Some false /\
@@ -1121,11 +1190,38 @@ Lemma md_clear_getters m z :
   md_get_int m' md_latest_ts = Some z /\
   md_get_str m' md_connected_addr = Some ""%string.
 Proof.
-  cbv zeta. unfold md_clear, md_set_int, md_get_bool, md_get_int, md_get_str, reset_counters.
-  cbn [fold_left app md_bool_names md_int_names md_str_names].
-  unfold md_reset_entry, md_set_bool, md_set_int, md_set_str.
-  cbn -[assoc aset adel]. 
-  repeat split; repeat constructor; repeat (rewrite assoc_aset; cbn -[assoc aset adel]); reflexivity.
+  cbv zeta.
+  assert (Hset : forall m0,
+    (forall k, md_get_bool (md_set_int m0 md_latest_ts z) k = md_get_bool m0 k) /\
+    (forall k, md_get_str (md_set_int m0 md_latest_ts z) k = md_get_str m0 k) /\
+    (forall k, k <> md_latest_ts -> md_get_int (md_set_int m0 md_latest_ts z) k = md_get_int m0 k) /\
+    md_get_int (md_set_int m0 md_latest_ts z) md_latest_ts = Some z).
+  { intros m0. unfold md_set_int. assert (Hn : name_in md_latest_ts md_int_names = true) by reflexivity.
+    rewrite Hn. repeat split; try reflexivity.
+    - intros k Hk. unfold md_get_int. cbn [m_int]. destruct (name_in k md_int_names); [|reflexivity].
+      rewrite assoc_aset. destruct (String.eqb_spec k md_latest_ts); [contradiction|reflexivity].
+    - unfold md_get_int. rewrite Hn. cbn [m_int]. rewrite assoc_aset. now rewrite String.eqb_refl. }
+  destruct (Hset (md_clear m)) as (Sb & Ss & Si & Sl).
+  rewrite !Sb, Ss, Sl. unfold md_clear.
+  split.
+  { apply (fold_reset (fun m => md_get_bool m md_sync = Some false) md_sync).
+    - intros m0 k' H. now apply reset_entry_bool.
+    - left. cbn. auto. }
+  split.
+  { apply (fold_reset (fun m => md_get_bool m md_connected = Some false) md_connected).
+    - intros m0 k' H. now apply reset_entry_bool.
+    - left. cbn. auto. }
+  split.
+  { unfold reset_counters.
+    repeat (constructor; [rewrite Si by discriminate;
+      match goal with |- md_get_int _ ?k = _ =>
+        apply (fold_reset (fun m => md_get_int m k = Some 0) k);
+          [intros m0 k' H; now apply reset_entry_int|left; cbn; tauto] end|]).
+    constructor. }
+  split; [reflexivity|].
+  apply (fold_reset (fun m => md_get_str m md_connected_addr = Some ""%string) md_connected_addr).
+  - intros m0 k' H. now apply reset_entry_addr.
+  - left. cbn. tauto.
 Qed.
 
 (** value at the index path of a gnmiUpdate afterwards: what was there, or the
@@ -1197,8 +1293,8 @@ Lemma meta_differs_true t k same :
 Proof.
   unfold meta_differs. intros H old Hl. rewrite Hl in H.
   destruct (n_upd old) as [|uo rest]; [discriminate|].
-  destruct (u_val uo) as [v|]; [|discriminate].
-  destruct (same v) as [[|]|]; try discriminate. exists uo, rest, v. auto.
+  destruct (u_val uo) as [v|] eqn:Ev; [|discriminate].
+  destruct (same v) as [[|]|] eqn:Es; try discriminate. exists uo, rest, v. auto.
 Qed.
 
 Lemma refresh_loops name m0 ts0 now t :
@@ -1210,7 +1306,7 @@ Proof.
   match goal with |- Q (fst (fst ?x)) => assert (H : gst_ok Q (fun _ => True) x) end; [|exact (proj1 H)].
   apply fold_gst_ok.
   { intros st k _ Hst. apply gen_meta_one_inv; [|exact Hst].
-    intros t0 val t' r Hq Hv Hd E. destruct st as [[t1 fd] po]. cbn [fst] in *.
+    intros val t' r t0 Hq Hv Hd E. destruct st as [[t1 fd] po]. subst t0. cbn [fst] in *.
     split; [|auto]. subst Q. eapply refresh_step; eauto.
     - destruct (md_get_str (t_meta t1) k) as [s|] eqn:Eg; [|discriminate].
       inversion Hv; subst. exact Eg.
@@ -1221,7 +1317,7 @@ Proof.
       destruct v; try discriminate. cbn in Hs. inversion Hs as [Hs']. cbn. rewrite Hs'. auto. }
   apply fold_gst_ok.
   { intros st k _ Hst. apply gen_meta_one_inv; [|exact Hst].
-    intros t0 val t' r Hq Hv Hd E. destruct st as [[t1 fd] po]. cbn [fst] in *.
+    intros val t' r t0 Hq Hv Hd E. destruct st as [[t1 fd] po]. subst t0. cbn [fst] in *.
     split; [|auto]. subst Q. eapply refresh_step; eauto.
     - destruct (md_get_int (t_meta t1) k) as [z|] eqn:Eg; [|discriminate].
       inversion Hv; subst. exact Eg.
@@ -1232,7 +1328,7 @@ Proof.
       destruct v; try discriminate. cbn in Hs. inversion Hs as [Hs']. cbn. rewrite Hs'. auto. }
   apply fold_gst_ok.
   { intros st k _ Hst. apply gen_meta_one_inv; [|exact Hst].
-    intros t0 val t' r Hq Hv Hd E. destruct st as [[t1 fd] po]. cbn [fst] in *.
+    intros val t' r t0 Hq Hv Hd E. destruct st as [[t1 fd] po]. subst t0. cbn [fst] in *.
     split; [|auto]. subst Q. eapply refresh_step; eauto.
     - destruct (md_get_bool (t_meta t1) k) as [b|] eqn:Eg; [|discriminate].
       inversion Hv; subst. exact Eg.
@@ -1350,3 +1446,16 @@ Qed.
 
 Example ex_remove_hyps : cinv ex_c /\ "t"%string <> "*"%string /\ cache_has_target ex_c "t" = true.
 Proof. split; [exact ex_cinv|]. split; [discriminate|vm_compute; reflexivity]. Qed.
+
+(** the initial latest timestamp is 0; after Reset it is not (KF-C14-1) *)
+Theorem reset_latest_refuted : exists t now t' feed,
+  wf_tree (t_tree t) /\ t_name t <> ""%string /\ calm now t /\
+  target_reset t now = (t', feed, None) /\
+  md_get_int (t_meta (new_target (t_name t) (t_cfg t))) md_latest_ts = Some 0 /\
+  md_get_int (t_meta t') md_latest_ts <> Some 0.
+Proof.
+  destruct ex_reset_hyps as (t & t' & feed & Ha & Hwf & Hne & Hc & Hr & _).
+  exists t, 4, t', feed. repeat split; try assumption.
+  destruct (reset_clears_meta t 4 t' feed Hwf Hne Hc Hr) as (_ & _ & _ & H & _).
+  rewrite H. cbn. discriminate.
+Qed.
